@@ -33,7 +33,9 @@
      f26  handleSendTreeMarshal takes instancesLock around its scan of the instances
      f70  MakeTree rejects a roster member without public key
      f71  a tree requested from a silent peer is requested again from the next sender
-     f72  a tree learnt from a peer never replaces a tree the server already has
+     f72  a tree sent by a peer is stored only while it is requested and missing
+          (treeStorage.IsRequested in handleSendTree / handleSendTreeMarshal; a pending
+          description is used once and skipped when its tree is present)
 
    Abstraction: identifiers are [nat] (0 = the nil uuid); a TokenID is the tuple
    it hashes; server identities are numbers ([peer] p talks for identity p;
@@ -287,14 +289,6 @@ Definition put_tree (t : stree) (s : ostate) : ostate :=
 Definition sf_set (t : stree) (s : ostate) : (unit * ostate) + crash := inl (tt, put_tree t s).
 Definition st_set (t : stree) : M unit := with_store (sf_set t).
 
-(* f72, SetIfAbsent: store a peer's tree unless a tree is stored under that id *)
-Definition sf_set_if_absent (t : stree) (s : ostate) : (bool * ostate) + crash :=
-  match lookup (t_id t) (store s) with
-  | Some (Have _) => inl (false, s)
-  | _ => inl (true, put_tree t s)
-  end.
-Definition st_set_if_absent (t : stree) : M bool := with_store (sf_set_if_absent t).
-
 (* Remove: schedule the removal once *)
 Definition sf_remove (id : nat) (s : ostate) : (unit * ostate) + crash :=
   inl (tt, if mem_nat id (removal s) then s else set_removal s (id :: removal s)).
@@ -438,12 +432,13 @@ Definition flush (fx : fixes) (t : stree) : M unit :=
 Definition register_tree (fx : fixes) (t : stree) : M unit :=
   st_set t ;; spawn (flush fx t).
 
-(* a tree that came from a peer *)
-Definition store_peer_tree (fx : fixes) (t : stree) : M unit :=
-  if f72 fx then
-    ok <- st_set_if_absent t ;;
-    if ok then spawn (flush fx t) else ret tt
-  else register_tree fx t.
+(* IsRegistered (pinned) / IsRequested (f72): may a peer's description be used for this id? *)
+Definition awaited (fx : fixes) (e : option entry) : bool :=
+  match e with
+  | None => false
+  | Some (Req _) => true
+  | Some (Have _) => negb (f72 fx)
+  end.
 
 Definition handle_request_tree (p : peer) (id ver : nat) : M unit :=
   e <- st_lookup id ;;
@@ -462,16 +457,14 @@ Definition handle_send_tree (fx : fixes) (otm : option tmarshal) (oro : option r
       match oro with
       | None => ret tt
       | Some ro =>
-          e <- st_lookup (tm_tree tm) ;;                      (* IsRegistered *)
-          match e with
-          | None => ret tt                                    (* ignoring unknown tree *)
-          | Some _ =>
-              match make_tree fx tm ro with
-              | MTErr => ret tt
-              | MTCrash c => panic c
-              | MTOk t => store_peer_tree fx t
-              end
-          end
+          e <- st_lookup (tm_tree tm) ;;                      (* IsRegistered / IsRequested *)
+          if awaited fx e then
+            match make_tree fx tm ro with
+            | MTErr => ret tt
+            | MTCrash c => panic c
+            | MTOk t => register_tree fx t
+            end
+          else ret tt                                         (* ignoring tree that is not awaited *)
       end
   end.
 
@@ -490,9 +483,7 @@ Fixpoint scan_rosters (rid : nat) (l : list token) (acc : option roster) : M (op
 Definition handle_send_tree_marshal (fx : fixes) (p : peer) (tm : tmarshal) : M unit :=
   if tm_tree tm =? 0 then ret tt else
   e <- st_lookup (tm_tree tm) ;;
-  match e with
-  | None => ret tt
-  | Some _ =>
+  if negb (awaited fx e) then ret tt else
       oro <- (let scan := access TInst ;; s <- get ;; scan_rosters (tm_roster tm) (insts s) None in
               if f26 fx then locked LInst scan else scan) ;;
       match oro with
@@ -501,12 +492,25 @@ Definition handle_send_tree_marshal (fx : fixes) (p : peer) (tm : tmarshal) : M 
           (* addPendingTreeMarshal *)
           locked LPTree (access TPTM ;; modify (fun s => set_ptm s (ptm s ++ [tm])))
       | Some ro => handle_send_tree fx (Some tm) (Some ro)
-      end
-  end.
+      end.
 
 Definition handle_request_roster (fx : fixes) (p : peer) (rid : nat) (nil_first : bool) : M unit :=
   oro <- st_get_roster fx rid nil_first ;;
   send p (RRoster (match oro with Some ro => ro_id ro | None => 0 end)) ;; ret tt.
+
+(* checkPendingTreeMarshal: one pending description. With f72 it is skipped when its
+   tree has been received in the meantime. *)
+Definition pending_one (fx : fixes) (ro : roster) (tm : tmarshal) : M unit :=
+  e <- (if f72 fx then st_lookup (tm_tree tm) else ret None) ;;
+  match e with
+  | Some (Have _) => ret tt
+  | _ =>
+      match make_tree fx tm ro with
+      | MTErr => ret tt
+      | MTCrash c => panic c
+      | MTOk t => register_tree fx t
+      end
+  end.
 
 (* checkPendingTreeMarshal *)
 Definition check_pending_tm (fx : fixes) (ro : roster) : M unit :=
@@ -515,11 +519,10 @@ Definition check_pending_tm (fx : fixes) (ro : roster) : M unit :=
   match filter (fun tm => tm_roster tm =? ro_id ro) (ptm s) with
   | [] => if f08 fx then release LPTree else ret tt           (* "no tree for this roster": return *)
   | sl =>
-      miter (fun tm => match make_tree fx tm ro with
-                       | MTErr => ret tt
-                       | MTCrash c => panic c
-                       | MTOk t => store_peer_tree fx t
-                       end) sl ;;
+      (* f72: every pending description is used once *)
+      (if f72 fx then modify (fun s => set_ptm s (filter (fun tm => negb (tm_roster tm =? ro_id ro)) (ptm s)))
+       else ret tt) ;;
+      miter (pending_one fx ro) sl ;;
       release LPTree
   end.
 
